@@ -389,6 +389,38 @@ def nitool_round(rep, r, tier, tmp):
                         rep.failure('nitool merge writes something else than NiftiWrapper.from_sequence returns', dict(C, tag='nitool:merge', dim=dim))
                 except Exception as e:
                     rep.failure('nitool merge: %r' % e, dict(C, tag='nitool:merge', dim=dim))
+        if len(case['shape']) >= 4 and case['shape'][-1] >= 2:
+            # the inputs are merged in command-line order, whatever their names: write the pieces of a split along the
+            # last axis under names whose sorted order is not the order they are passed in
+            dim2 = len(case['shape']) - 1
+            with contextlib.redirect_stdout(io.StringIO()):
+                api2 = list(w.split(dim2))
+            perm = list(range(len(api2)))
+            while perm == sorted(perm):
+                r.shuffle(perm)
+            names = sorted('%s%02d.nii.gz' % (r.choice('abcxyz'), i) for i in range(len(api2)))
+            pd = os.path.join(d, 'perm'); os.makedirs(pd)
+            args_paths = []
+            for j, i in enumerate(perm):
+                dst = os.path.join(pd, names[(j + 1) % len(names)])      # the sorted names are a rotation of the order passed
+                with contextlib.redirect_stdout(io.StringIO()):
+                    api2[i].to_filename(dst)
+                args_paths.append(dst)
+            outp = os.path.join(d, 'merged_perm.nii.gz')
+            rc, out = nitool(['merge', outp, '-d', str(dim2)] + args_paths)
+            rep.evaluations += 1
+            rep.count('cli/nitool-merge-permuted')
+            try:
+                with contextlib.redirect_stdout(io.StringIO()):
+                    mw = NiftiWrapper.from_filename(outp)
+                    am = NiftiWrapper.from_sequence([NiftiWrapper.from_filename(x) for x in args_paths], dim2)
+                if not np.array_equal(np.asanyarray(mw.nii_img.dataobj), np.asanyarray(am.nii_img.dataobj)) or \
+                        mw.meta_ext.to_json() != am.meta_ext.to_json():
+                    rep.failure('nitool merge of files passed in the order %s (names %s) writes something else than '
+                                'NiftiWrapper.from_sequence returns for that order' % (perm, [os.path.basename(x) for x in args_paths]),
+                                dict(C, tag='nitool:merge-order', dim=dim2, perm=perm))
+            except Exception as e:
+                rep.failure('nitool merge (permuted inputs): %r' % e, dict(C, tag='nitool:merge-order', dim=dim2))
         # ---- inject
         ext = w.meta_ext
         valid = [M.CLS[tuple(c)] for c in ext.get_valid_classes()]
